@@ -100,6 +100,14 @@ new.append(ob("C17.x.select-two", "pkg/gi", "VerifC17SelectTwo", cases1(range(4)
               "never-ready clause, consumers started from a dotimes. " + MODEL + ". " + ONE % "",
               ["forwarded"]))
 
+q = [[c, 3, m, mode] for c in (0, 2) for m in (2, 5) for mode in (0, 1, 2)]
+t = [[c, k, m, mode] for c in (0, 1, 2, 4) for k in (2, 3, 4) for m in (1, 2, 5, 6, 2 ** 4 - 1) if m < 2 ** k for mode in (0, 1, 2)]
+new.append(ob("C17.x.nil-items", "pkg/gi", "VerifC17NilItems", q, t,
+              "nil as a channel item: a routine pushes k items, those selected by a mask are nil and the others symbolic 32-bit fixnums, and closes the channel; "
+              "the consumer (gi:range with a function, channel-pop k times, select k times) receives exactly the pushed sequence, nil items in their places, "
+              "nothing lost after a nil, the producer never left blocked. capacities 0/1/2/4, k = 2..4. " + MODEL + ". " + ONE % "",
+              ["received"]))
+
 new.append(ob("C17.x.mutex-exit", "pkg/gi", "VerifC17MutexExit", cases1(range(7)), cases1(range(7)),
               "with-mutex-lock leaves the mutex free after a normal exit, a return-from out of the body, an error in the body caught outside by ignore-errors "
               "or gi:recover, an error under unwind-protect, a non-mutex argument (condition, nothing locked) and an empty body: the same mutex is taken "
